@@ -53,7 +53,8 @@ def _bcast(op, a, b):
 
 import operator
 CMP = {'<': operator.lt, '<=': operator.le, '>': operator.gt, '>=': operator.ge, '==': operator.eq, '!=': operator.ne}
-ARITH = {'+': operator.add, '-': operator.sub, '*': operator.mul}
+ARITH = {'+': operator.add, '-': operator.sub, '*': operator.mul, '/': operator.truediv, '//': operator.floordiv,
+         '**': operator.pow, '%': operator.mod}
 IDENT_CALL = {'numpy.asanyarray', 'numpy.asarray', 'numpy.array', 'numpy.ravel', 'numpy.atleast_1d', 'numpy.squeeze'}
 IDENT_METH = {'flatten', 'ravel', 'copy', 'squeeze'}
 
@@ -254,6 +255,37 @@ class OrderEval:
         if name in IDENT_CALL and args:
             v = self.ev(args[0])
             return Vec(v) if _isvec(v) else v
+        if name == 'numpy.bincount' and len(args) == 1 and set(kw) <= {'minlength'}:
+            v = self.ev(args[0])
+            if not _isvec(v) or any(isinstance(x, bool) or not isinstance(x, int) for x in v):
+                raise Undecided('bincount of a non-integer vector')
+            if any(x < 0 for x in v):
+                raise IndexError('np.bincount of negative values raises ValueError')
+            n = max(v) + 1 if v else 0
+            if 'minlength' in kw:
+                n = max(n, self.ev(kw['minlength']))
+            out = Vec([0] * n)
+            for x in v:
+                out[x] += 1
+            return out
+        if name == 'numpy.repeat' and len(args) == 2 and not kw:
+            a, r = self.ev(args[0]), self.ev(args[1])
+            if not _isvec(a):
+                a = Vec([a])
+            if _isvec(r):
+                if len(r) != len(a):
+                    if len(r) == 1:
+                        r = list(r) * len(a)
+                    else:
+                        raise IndexError('np.repeat: %d counts for %d elements' % (len(r), len(a)))
+            else:
+                r = [r] * len(a)
+            out = Vec()
+            for x, k in zip(a, r):
+                if isinstance(k, bool) or not isinstance(k, int) or k < 0:
+                    raise Undecided('repeat count')
+                out.extend([x] * k)
+            return out
         if name == 'numpy.sort' and args:
             return Vec(sorted(self.ev(args[0])))
         if name == 'builtins.sorted' and args and not kw:
